@@ -244,10 +244,13 @@ viol_counts = {}
 
 
 def report(sig, what, row):
+    ''' One report (replay file, VIOLATION / KNOWN-FINDING line) per class of failure: the first row that
+    shows it; the signature still names the exact input class.  All failing rows are counted in the evidence. '''
     viol_counts[sig] = viol_counts.get(sig, 0) + 1
-    if sig in reported:
+    cls = '/'.join(sig.split('/')[:2]) if sig.startswith('contact/') else sig
+    if cls in reported:
         return
-    reported.add(sig)
+    reported.add(cls)
     chk.fail(signature=sig, what=what, replay_obj=dict(row=row))
 
 
@@ -299,13 +302,13 @@ def run_rows(rows, model_ok):
     for (idx, row) in enumerate(contact):
         obs = I.run_contact_row(row)
         chk.count('contact.role', row['role'])
-        chk.count('contact.require_tls', row['require_tls'])
+        chk.count('contact.require_tls', str(row['require_tls']))
         mid = obs['after_contact']
         impl = dict(proceeds=not mid['closed'], secured=mid['secure'],
                     sessinit=obs['sessinit_clear'] or obs['sessinit_tls'], established=obs['established'])
         nontrivial = mid['closed'] or mid['secure']
         if mod_contact is not None:
-            (attempt, ((proceeds, secured), spec_ok)) = mod_contact[idx]
+            (attempt, (proceeds, secured, spec_ok)) = mod_contact[idx]   # Coq prints ((a, b), c) as (a, b, c)
             model = dict(attempt=bool(attempt), proceeds=bool(proceeds), secured=bool(secured), spec_ok=bool(spec_ok))
             # the model's Proceed = the endpoint goes on: SESS_INIT is emitted (by the active side at once,
             # by the passive side in reply to the peer's) and, the certificate being fine, the session is established
@@ -334,7 +337,10 @@ def run_rows(rows, model_ok):
         if direct_refused != view['refuses'] or (direct['refused'] not in (None, CONTACT_FAILURE)):
             differ(row, dict(e2e=view, direct=direct), 'direct call of merge_session_params() disagrees with the message-driven run')
         use_tls = row.get('tls', True)
+        # distinct = distinct input of the model (v4/v6 rows with the same abstract identifiers count once);
+        # non-trivial = under TLS and the decision leaves the default path (a SAN is presented or a requirement is set)
         nontrivial = bool(use_tls and (row['san'] or row['require_host'] or row['require_node']))
+        abstract_key = json.dumps(abstract_authn(row), sort_keys=True)
         if mod_authn is not None:
             model = canon_model_authn(mod_authn[idx])
             (failed, _ref) = policy_clauses(row)
@@ -353,7 +359,7 @@ def run_rows(rows, model_ok):
             else:
                 if not obs['established'] or view['authn'] != ['absent'] * 3:
                     differ(row, view, 'no TLS: established, nothing authenticated')
-        chk.case(ident=('authn', json.dumps(row, sort_keys=True)), nontrivial=nontrivial,
+        chk.case(ident=('authn', abstract_key), nontrivial=nontrivial,
                  sample=dict(row=row, observed=view) if idx in (7, 333, 801) else None)
         for (sig, what) in oracle_authn(row, obs):
             report(sig, what, row)
@@ -463,8 +469,9 @@ def main():
               '{matching IP, other IP, matching DNS, other DNS, matching URI, other URI} SANs + SAN extension without any of these + no SAN extension '
               'x require_host x require_node, plus rows with the other announced node ID / other connect name / no TLS; match_id() table = 3 references x 6 '
               'certificates.  Each row runs the real ContactHandler (message-driven, and merge_session_params() called directly), the generated Coq definitions '
-              '(vm_compute) and the oracle.  distinct = distinct row; non-trivial = contact row that closes or secures, authentication row under TLS with at '
-              'least one SAN or one requirement set, match_id row whose certificate carries identifiers.'),
+              '(vm_compute) and the oracle.  distinct = distinct input of the model (authentication rows that differ only in the address family or in '
+              'which concrete name plays which role map to the same abstract identifiers and count once); non-trivial = contact row that closes or '
+              'secures, authentication row under TLS with at least one SAN or one requirement set, match_id row whose certificate carries identifiers.'),
         assumptions=[
             'harness stubs (dbus, gi.repository.GLib virtual main context) and ssl.match_hostname no-op shim are trusted',
             'Connection.secure() is replaced: on success the connection reports is_secure() and uses a fake TLS socket whose getpeercert(True) returns the '
